@@ -1348,3 +1348,187 @@ Proof.
     apply (text_no_overhang (tab_measure (c_tab c)) (c_remeasure c) (tab_trailing (c_tab c)) w s (c_op c) s' ret x y cl HWF); auto.
     apply build_window_edges; exact EB.
 Qed.
+(* ------------------------------------------------------------------ sequences of calls *)
+
+Lemma run_seq_clipped m rem tr steps : forall s,
+  WF s -> exists s', run_seq_with m rem tr s steps = Some s' /\ WF s' /\ same_dims s s' /\
+    forall X Y, outside_all s steps X Y = true -> sget s' X Y = sget s X Y.
+Proof.
+  induction steps as [|[w o] t IH]; intros s H; cbn [run_seq_with outside_all forallb fst].
+  - exists s. split; [reflexivity|]. split; [exact H|]. split; [apply same_dims_refl|reflexivity].
+  - destruct (run_op_clipped m rem tr w s o H) as (s1 & ret & E & Hwf1 & Hd1 & Hout1). rewrite E.
+    destruct (IH s1 Hwf1) as (s2 & E2 & Hwf2 & Hd2 & Hout2). exists s2.
+    split; [exact E2|]. split; [exact Hwf2|]. split; [eapply same_dims_trans; eassumption|].
+    intros X Y HV. apply andb_prop in HV as [HV1 HV2].
+    rewrite Hout2.
+    + apply Hout1. destruct (visible w s X Y); [discriminate|reflexivity].
+    + unfold outside_all in *. rewrite forallb_forall in *. intros st Hst.
+      rewrite (visible_dims (fst st) s s1 X Y Hd1). apply HV2; exact Hst.
+Qed.
+
+Lemma diff_at_some_in d x y c : diff_at d x y = Some c -> In (x, y, c) d.
+Proof.
+  induction d as [|[[x' y'] c'] t IH]; cbn [diff_at]; [discriminate|].
+  destruct ((x' =? x) && (y' =? y)) eqn:E.
+  - intros H; injection H as <-. apply andb_prop in E as [E1 E2]. left. replace x' with x by lia. replace y' with y by lia. reflexivity.
+  - intros H; right; apply IH; exact H.
+Qed.
+
+Lemma diff_at_none d x y c : diff_at d x y = None -> ~ In (x, y, c) d.
+Proof.
+  induction d as [|[[x' y'] c'] t IH]; cbn [diff_at]; [intros _ []|].
+  destruct ((x' =? x) && (y' =? y)) eqn:E; [discriminate|].
+  intros H [Hin|Hin]; [|exact (IH H Hin)]. injection Hin as -> -> ->. rewrite !Z.eqb_refl in E; discriminate.
+Qed.
+
+Lemma cell_eqb_neq a b : cell_eqb a b = false -> a <> b.
+Proof. intros H ->. rewrite cell_eqb_refl in H; discriminate. Qed.
+
+(* reading a screen back from its difference list *)
+Lemma obs_at_screen_diff bg s x y c : sget s x y = Some c -> obs_at bg (screen_diff bg s) x y = c.
+Proof.
+  intros Hg. unfold obs_at. destruct (diff_at (screen_diff bg s) x y) as [c'|] eqn:E.
+  - apply diff_at_some_in in E. apply screen_diff_in in E as [E _]. congruence.
+  - destruct (cell_eqb c bg) eqn:EC; [symmetry; apply cell_eqb_eq; exact EC|].
+    exfalso. exact (diff_at_none _ _ _ c E (screen_diff_in_conv bg s x y c Hg EC)).
+Qed.
+
+Lemma changed_cells_in bg cols rows prev post x y c :
+  In (x, y, c) (changed_cells bg cols rows prev post) <->
+  0 <= x < cols /\ 0 <= y < rows /\ c = obs_at bg post x y /\ cell_eqb (obs_at bg prev x y) c = false.
+Proof.
+  unfold changed_cells. rewrite in_flat_map. split.
+  - intros (y' & Hy & Hin). rewrite in_flat_map in Hin. destruct Hin as (x' & Hx & Hin).
+    apply In_zrange in Hy, Hx. cbn zeta in Hin.
+    destruct (cell_eqb (obs_at bg prev x' y') (obs_at bg post x' y')) eqn:E; [destruct Hin|].
+    destruct Hin as [Hin|[]]. injection Hin as <- <- <-. auto.
+  - intros (Hx & Hy & -> & Hne). exists y; split; [apply In_zrange; exact Hy|].
+    rewrite in_flat_map. exists x; split; [apply In_zrange; exact Hx|]. cbn zeta. rewrite Hne. left; reflexivity.
+Qed.
+
+(* a changed cell between the difference lists of two well-formed screens of the given size *)
+Lemma changed_cells_screens bg s s' x y c :
+  WF s -> WF s' -> same_dims s s' ->
+  In (x, y, c) (changed_cells bg (scols s) (srows s) (screen_diff bg s) (screen_diff bg s')) <->
+  sget s' x y = Some c /\ exists c0, sget s x y = Some c0 /\ c0 <> c.
+Proof.
+  intros Hwf Hwf' [Hd1 Hd2]. rewrite changed_cells_in. split.
+  - intros (Hx & Hy & -> & Hne).
+    destruct (sget_in_range s x y Hwf Hx Hy) as (c0 & E0).
+    destruct (sget_in_range s' x y Hwf') as (c1 & E1); [lia|lia|].
+    rewrite (obs_at_screen_diff bg s x y c0 E0) in Hne. rewrite (obs_at_screen_diff bg s' x y c1 E1) in *.
+    split; [exact E1|]. exists c0; split; [exact E0|apply cell_eqb_neq; exact Hne].
+  - intros (E1 & c0 & E0 & Hne). destruct (sget_some_range s x y c0 Hwf E0) as [Hx Hy].
+    rewrite (obs_at_screen_diff bg s x y c0 E0), (obs_at_screen_diff bg s' x y c E1).
+    split; [exact Hx|]. split; [exact Hy|]. split; [reflexivity|].
+    destruct (cell_eqb c0 c) eqn:E; [apply cell_eqb_eq in E; contradiction|reflexivity].
+Qed.
+
+(* one cell of any screen replaced: the changed cells are exactly that one (if it differs) *)
+Lemma single_change_changed w bg s s' s0 col row (f : cell -> cell) :
+  WF s -> same_dims s s0 ->
+  let X := fst (origin w) + col in
+  let Y := snd (origin w) + row in
+  (if visible w s X Y then updated_at s s' X Y f else s' = s) ->
+  diff_same (changed_cells bg (scols s) (srows s) (screen_diff bg s) (screen_diff bg s'))
+            (expected_change w s0 bg (screen_diff bg s) col row f) = true.
+Proof.
+  intros Hwf Hd0 X Y H. unfold expected_change. destruct (origin w) as [ox oy] eqn:Eo; cbn [fst snd] in X, Y. fold X Y.
+  rewrite (visible_dims w s s0 X Y Hd0).
+  unfold diff_same. destruct (visible w s X Y) eqn:EV.
+  - destruct H as (Hwf' & Hd & (old & Ho & Hn) & Hrest).
+    rewrite (obs_at_screen_diff bg s X Y old Ho).
+    assert (Hall : forall x y c, In (x, y, c) (changed_cells bg (scols s) (srows s) (screen_diff bg s) (screen_diff bg s')) ->
+                                 x = X /\ y = Y /\ c = f old /\ old <> f old).
+    { intros x y c Hin. apply (changed_cells_screens bg s s' x y c Hwf Hwf' Hd) in Hin as (E1 & c0 & E0 & Hne).
+      destruct (Z.eq_dec x X) as [->|Hx]; [destruct (Z.eq_dec y Y) as [->|Hy]|].
+      - rewrite Hn in E1; injection E1 as <-. rewrite Ho in E0; injection E0 as <-. auto.
+      - rewrite Hrest in E1 by auto. congruence.
+      - rewrite Hrest in E1 by auto. congruence. }
+    destruct (cell_eqb old (f old)) eqn:EC; cbn [andb negb].
+    + apply cell_eqb_eq in EC.
+      destruct (changed_cells bg (scols s) (srows s) (screen_diff bg s) (screen_diff bg s')) as [|[[x y] c] t] eqn:ED; [reflexivity|].
+      destruct (Hall x y c (or_introl eq_refl)) as (_ & _ & _ & Hf); contradiction.
+    + apply andb_true_intro; split.
+      * apply forallb_forall. intros [[x y] c] Hin. destruct (Hall x y c Hin) as (-> & -> & -> & _).
+        cbn [existsb]. rewrite placement_eqb_refl; reflexivity.
+      * cbn [forallb]. rewrite andb_true_r. apply existsb_exists. exists (X, Y, f old); split; [|apply placement_eqb_refl].
+        apply (changed_cells_screens bg s s' X Y (f old) Hwf Hwf' Hd). split; [exact Hn|].
+        exists old; split; [exact Ho|apply cell_eqb_neq; exact EC].
+  - subst s'. cbn [andb].
+    destruct (changed_cells bg (scols s) (srows s) (screen_diff bg s) (screen_diff bg s)) as [|[[x y] c] t] eqn:ED; [reflexivity|].
+    assert (Hin : In (x, y, c) (changed_cells bg (scols s) (srows s) (screen_diff bg s) (screen_diff bg s))) by (rewrite ED; left; reflexivity).
+    apply (changed_cells_screens bg s s x y c Hwf Hwf (same_dims_refl s)) in Hin as (E1 & c0 & E0 & Hne). congruence.
+Qed.
+
+Lemma build_window_dims s s0 ws : same_dims s s0 -> build_window s0 ws = build_window s ws.
+Proof. intros [H1 H2]. unfold build_window, root_window. rewrite H1, H2. reflexivity. Qed.
+
+Lemma pair_eqb_eq a b : pair_eqb a b = true -> a = b.
+Proof. destruct a, b; unfold pair_eqb; cbn [fst snd]; intros H. f_equal; lia. Qed.
+
+Lemma pair_eqb_refl a : pair_eqb a a = true.
+Proof. unfold pair_eqb. rewrite !Z.eqb_refl; reflexivity. Qed.
+
+(* one step of a sequence: whatever agrees with the model satisfies the step predicate *)
+Lemma seq_agrees_core bg tab rem steps : forall s,
+  WF s ->
+  seq_agrees_from bg tab rem s steps = true ->
+  seq_core_from bg (scols s) (srows s) (screen_diff bg s) steps = true.
+Proof.
+  induction steps as [|[[ws o] ob] t IH]; intros s HWF; cbn [seq_agrees_from seq_core_from]; [reflexivity|].
+  set (w := build_window s ws). intros H.
+  apply andb_prop in H as [H Hrun]. apply andb_prop in H as [H Horg]. apply andb_prop in H as [_ Hfr].
+  apply (list_eqb_eq frame_eqb frame_eqb_eq) in Hfr. apply pair_eqb_eq in Horg.
+  unfold run_op in Hrun.
+  destruct (run_op_clipped (tab_measure tab) rem (tab_trailing tab) w s o HWF) as (s' & ret & E & Hwf' & Hd & Hout).
+  rewrite E in Hrun. apply andb_prop in Hrun as [Hrun Hrest]. apply andb_prop in Hrun as [Hrun _].
+  apply andb_prop in Hrun as [Ho Hdiff]. apply diff_eqb_eq in Hdiff.
+  cbn [snd o_diff]. rewrite <- Hdiff.
+  destruct Hd as [Hd1 Hd2]. rewrite <- Hd1, <- Hd2. rewrite (IH s' Hwf' Hrest), andb_true_r.
+  rewrite Hd1, Hd2.
+  unfold step_core_holds. rewrite <- Hfr, window_of_frames_chain. rewrite Ho, <- Hdiff, <- Horg. cbn [andb].
+  set (s0 := bg_screen bg (scols s) (srows s)).
+  assert (Hd0 : same_dims s s0) by (split; reflexivity).
+  assert (Hd' : same_dims s s') by (split; assumption).
+  pose proof (build_window_new_edges s ws) as Hnew. fold w in Hnew. rewrite Hnew. cbn [andb].
+  rewrite win_origin_spec, pair_eqb_refl. cbn [andb].
+  assert (Hvis : forall x y cl, In (x, y, cl) (changed_cells bg (scols s) (srows s) (screen_diff bg s) (screen_diff bg s')) ->
+                 visible w s x y = true /\ sget s' x y = Some cl /\ sget s x y <> Some cl).
+  { intros x y cl Hin. apply (changed_cells_screens bg s s' x y cl HWF Hwf' Hd') in Hin as (E1 & c0 & E0 & Hne).
+    assert (Hs : sget s x y <> Some cl) by congruence.
+    split; [|split; assumption].
+    destruct (visible w s x y) eqn:EV; [reflexivity|]. rewrite (Hout x y EV) in E1. contradiction. }
+  apply andb_true_intro; split; [apply andb_true_intro; split; [apply andb_true_intro; split|]|].
+  - apply forallb_forall. intros [[x y] cl] Hin; cbn [fst snd]. apply screen_diff_in in Hin as [Hg _].
+    destruct (sget_some_range s' x y cl Hwf' Hg) as [Hx Hy]. unfold on_screen, s0, bg_screen; cbn [scols srows]. lia.
+  - apply forallb_forall. intros [[x y] cl] Hin; cbn [fst snd].
+    rewrite (visible_dims w s s0 x y Hd0). apply (Hvis x y cl Hin).
+  - destruct o as [col row cl|col row st| | | | | |] eqn:Eop; try reflexivity; cbn [run_op_with] in E.
+    + destruct (setcell_clip w s col row cl HWF) as (s1 & E1 & H1). rewrite E1 in E; injection E as <- _.
+      apply (single_change_changed w bg s s1 s0 col row (fun _ => cl) HWF Hd0 H1).
+    + destruct (setstyle_clip w s col row st HWF) as (s1 & E1 & H1). rewrite E1 in E; injection E as <- _.
+      apply (single_change_changed w bg s s1 s0 col row (fun old => mkCell (cg old) (cw old) st) HWF Hd0 H1).
+  - destruct (is_text_op o && built_by_constructors ws) eqn:ET; [|reflexivity].
+    apply andb_prop in ET as [ET EB].
+    apply forallb_forall. intros [[x y] cl] Hin; cbn [fst snd]. apply forallb_forall. intros i Hi.
+    apply In_zrange in Hi. destruct (Hvis x y cl Hin) as (_ & Hg & Hs).
+    rewrite (visible_dims w s s0 (x + i) y Hd0).
+    apply (text_no_overhang (tab_measure tab) rem (tab_trailing tab) w s o s' ret x y cl HWF); auto.
+    apply build_window_edges; exact EB.
+Qed.
+
+Lemma screen_diff_bg bg cols rows : screen_diff bg (bg_screen bg cols rows) = [].
+Proof.
+  destruct (screen_diff bg (bg_screen bg cols rows)) as [|[[x y] c] t] eqn:E; [reflexivity|].
+  assert (Hin : In (x, y, c) (screen_diff bg (bg_screen bg cols rows))) by (rewrite E; left; reflexivity).
+  apply screen_diff_in in Hin as [Hg Hne]. apply sget_bg_screen in Hg; subst c. rewrite cell_eqb_refl in Hne; discriminate.
+Qed.
+
+Lemma scase_agrees_core_holds c :
+  0 <= q_cols c -> 0 <= q_rows c -> scase_agrees c = true -> scase_core_holds c = true.
+Proof.
+  intros Hc Hr H. unfold scase_agrees in H. unfold scase_core_holds.
+  pose proof (seq_agrees_core (q_bg c) (q_tab c) (q_remeasure c) (q_steps c) _ (bg_screen_WF (q_bg c) _ _ Hc Hr) H) as H1.
+  rewrite screen_diff_bg in H1. exact H1.
+Qed.
